@@ -123,10 +123,12 @@ CallBits(e) ==
   IN
   IF e.res[1] = "Panic" THEN [bits |-> {4} \cup termBit, next |-> nextFail, alloc |-> alloc]
   ELSE IF ~ok
-  THEN \* a failing call: must be allowed to fail, changes no instruction, keeps a valid selection
+  THEN \* a failing call: must be allowed to fail, changes no instruction and leaves the selection as it was
+       \* (MC_Builder!Fail: which function / block is open is part of what a failed call must not change,
+       \* otherwise the "fails iff ... is open" clauses would not hold for the next call)
        [bits |-> (IF mustFail THEN {} ELSE {1})
                  \cup (IF SameInsts(lm, pm) THEN {} ELSE {1})
-                 \cup (IF SelectionValid(lm, e.selF, e.selB) THEN {} ELSE {1}) \cup termBit,
+                 \cup (IF SelectionValid(lm, e.selF, e.selB) /\ e.selF = selF /\ e.selB = selB THEN {} ELSE {1}) \cup termBit,
         next |-> nextFail, alloc |-> alloc]
   ELSE IF mustFail THEN [bits |-> {1} \cup termBit, next |-> next, alloc |-> alloc]
   ELSE
@@ -212,7 +214,7 @@ New == /\ l <= Len(Rec) /\ Rec[l].ev = "bnew"
 
 Call == /\ l <= Len(Rec) /\ Rec[l].ev = "bcall"
         /\ LET e == Rec[l]  r == CallBits(e)  c == SumBits(r.bits) IN
-           /\ bad' = IF c = 0 THEN bad ELSE Append(bad, <<l, c>>)
+           /\ bad' = IF c = 0 THEN bad ELSE (IF Len(bad) >= 5000 THEN bad ELSE Append(bad, <<l, c>>))
            \* resynchronise on the logged observables so that the rest of the history is still checked
            /\ pm' = [s \in DOMAIN EmptyModule |-> IF s = "header" THEN <<>> ELSE e.module[1][s]]
            /\ selF' = e.selF /\ selB' = e.selB
@@ -220,7 +222,7 @@ Call == /\ l <= Len(Rec) /\ Rec[l].ev = "bcall"
         /\ l' = l + 1
 
 Finish == /\ l <= Len(Rec) /\ Rec[l].ev = "bfinish"
-          /\ LET c == SumBits(FinishBits(Rec[l])) IN bad' = IF c = 0 THEN bad ELSE Append(bad, <<l, c>>)
+          /\ LET c == SumBits(FinishBits(Rec[l])) IN bad' = IF c = 0 THEN bad ELSE (IF Len(bad) >= 5000 THEN bad ELSE Append(bad, <<l, c>>))
           /\ l' = l + 1 /\ UNCHANGED <<pm, selF, selB, next, alloc>>
 
 Next == New \/ Call \/ Finish
